@@ -1,5 +1,5 @@
 (* C18 through the NFSv4.0 model - the property theorems, and nothing else. *)
-From VF Require Import Nfs40.Model Nfs40.ProofsInv Nfs40.ProofsInv2 Nfs40.ProofsAux.
+From VF Require Import Nfs40.Model Nfs40.ProofsInv Nfs40.ProofsInv2 Nfs40.ProofsAux Nfs40.Proofs18.
 Open Scope N_scope.
 
 (* open_close_balanced: for every history (any interleaving of critical
@@ -63,3 +63,30 @@ Print Assumptions open_stays_resolvable.
 Theorem pool_use_count_exact : forall evs h, use_of (state_after evs) h = live_on (state_after evs) h.
 Proof. exact ProofsAux.pool_use_count_exact. Qed.
 Print Assumptions pool_use_count_exact.
+
+(* stateid_scope: a state ID is honoured only for the open-owner file (lock-owner
+   file) it names, with the current file handle being that file's, with the
+   exact current seqid, while the share reservation is in place and - except
+   for OPEN_CONFIRM - the open-owner is confirmed; I/O only within the share
+   reservation of the state named *)
+Theorem stateid_scope_open : forall sq other allow c s o,
+  get_oofs sq other allow c s = inl o ->
+  find_live_oofs other s = Some o /\ c = CurLeaf (of_handle o) /\ sq = of_seq o /\ mask_empty (of_sa o) = false
+  /\ (allow = false -> exists oo, find_oos (of_client o, of_owner o) s = Some oo /\ oo_confirmed oo = true).
+Proof. exact open_stateid_scope. Qed.
+Print Assumptions stateid_scope_open.
+
+Theorem stateid_scope_lock : forall sq other c s lf,
+  get_lofs sq other c s = inl lf ->
+  find_lofs other s = Some lf /\ sq = lf_seq lf
+  /\ exists o, find_oofs (lf_oofs lf) s = Some o /\ c = CurLeaf (of_handle o).
+Proof. exact lock_stateid_scope. Qed.
+Print Assumptions stateid_scope_lock.
+
+Theorem stateid_scope_io : forall g t c k sid openerr ioerr s s' sq other,
+  internalize sid = IsReg sq other ->
+  do_io g t c k sid openerr ioerr s = (s', RpParkedIo) ->
+  (exists o, get_oofs sq other false c (enter t s) = inl o /\ mask_subset (io_access k) (of_sa o) = true)
+  \/ (exists lf, get_lofs sq other c (enter t s) = inl lf /\ mask_subset (io_access k) (lf_sa lf) = true).
+Proof. exact io_stateid_scope. Qed.
+Print Assumptions stateid_scope_io.
